@@ -174,9 +174,16 @@ func main() {
 			b = "recent"
 			t1 = 1600000000000000000 + r.Int63n(200000000000000000)
 		}
+		if i%50 == 7 { // the last microseconds of NTP era 0
+			b = "era-end"
+			t1 = ns2036 - 1 - int64(r.Intn(3000))
+		}
 		t2 := t1 + int64(r.Intn(1000000))
 		if r.Intn(4) == 0 {
 			t2 = t1 + int64(r.Intn(3))
+		}
+		if t2 >= ns2036 {
+			t2 = ns2036 - 1
 		}
 		ref := t1 + (r.Int63n(40*3600) - 20*3600)*1000000000
 		if r.Intn(2) == 0 {
